@@ -526,6 +526,10 @@ fn logical_indices(
 }
 
 fn ree_physical_indices(info: &ReeInfo) -> Vec<usize> {
+    if info.len == 0 {
+        // An empty slice has no runs; `start_physical` is not meaningful for it.
+        return Vec::new();
+    }
     let run_ends = info.run_ends_as_usize();
     let end = info.offset + info.len;
     let mut indices = Vec::with_capacity(info.len);
